@@ -57,7 +57,8 @@ def LimOK (P : Params K) (s : State K) : Sum (State K × K × K) (Result K) → 
   | .inl (s', hS, xN) => s'.x = s.x ∧ xN = s'.x + hS ∧ P.direction * (xN - P.xend) ≤ 0
   | .inr r => r.status = .success → r.x = P.xend
 
-theorem limits_spec (L : Lits K) (P : Params K) (s : State K) (hd : P.direction * P.direction = 1) (hz : L.zero = 0) (hi : Inv P s) :
+theorem limits_spec (L : Lits K) (P : Params K) (s : State K) (hd : P.direction * P.direction = 1) (hz : L.zero = 0)
+    (hst : 1 ≤ L.stretch) (hi : Inv P s) :
     LimOK P s (limits L P s) := by
   unfold limits
   dsimp only
@@ -80,8 +81,16 @@ theorem limits_spec (L : Lits K) (P : Params K) (s : State K) (hd : P.direction 
       linarith
     · -- landing: the step becomes |xend - x| and ends exactly at xend
       refine ⟨hx2, rfl, ?_⟩
-      have hov' : P.direction * (s2.x + P.direction * s2.h - P.xend) > 0 := by simpa [hz] using hov
-      have hpos : 0 < s2.h := by nlinarith
+      have hov' : P.direction * (s2.x + L.stretch * (P.direction * s2.h) - P.xend) > 0 := by simpa [hz] using hov
+      have hexp : P.direction * (s2.x + L.stretch * (P.direction * s2.h) - P.xend)
+          = P.direction * (s2.x - P.xend) + L.stretch * s2.h := by
+        have : P.direction * (L.stretch * (P.direction * s2.h)) = (P.direction * P.direction) * (L.stretch * s2.h) := by ring
+        rw [mul_sub, mul_add, this, hd]; ring
+      have hpos : 0 < s2.h := by
+        rw [hexp] at hov'
+        by_contra hneg
+        have : L.stretch * s2.h ≤ 0 := mul_nonpos_of_nonneg_of_nonpos (by linarith) (not_lt.mp hneg)
+        linarith
       have habs : |P.xend - s2.x| = P.direction * (P.xend - s2.x) := by
         have h0 : 0 ≤ P.direction * (P.xend - s2.x) := by nlinarith
         rcases abs_cases (P.xend - s2.x) with ⟨h1, h2⟩ | ⟨h1, h2⟩
@@ -112,7 +121,20 @@ theorem limits_spec (L : Lits K) (P : Params K) (s : State K) (hd : P.direction 
       linarith
   · rename_i hov
     refine ⟨hx2, rfl, ?_⟩
-    simpa [hz] using hov
+    have hov' : P.direction * (s2.x + L.stretch * (P.direction * s2.h) - P.xend) ≤ 0 := by simpa [hz] using hov
+    have hexp : P.direction * (s2.x + L.stretch * (P.direction * s2.h) - P.xend)
+        = P.direction * (s2.x - P.xend) + L.stretch * s2.h := by
+      have : P.direction * (L.stretch * (P.direction * s2.h)) = (P.direction * P.direction) * (L.stretch * s2.h) := by ring
+      rw [mul_sub, mul_add, this, hd]; ring
+    have hexp1 : P.direction * (s2.x + P.direction * s2.h - P.xend) = P.direction * (s2.x - P.xend) + s2.h := by
+      have : P.direction * (P.direction * s2.h) = (P.direction * P.direction) * s2.h := by ring
+      rw [mul_sub, mul_add, this, hd]; ring
+    rw [hexp1]
+    rw [hexp] at hov'
+    by_cases hneg : s2.h ≤ 0
+    · linarith
+    · have : s2.h ≤ L.stretch * s2.h := by nlinarith [not_le.mp hneg]
+      linarith
 theorem adapt_x (L : Lits K) (s : State K) (o : PassOracle K) (sf e : K) : (adapt L s o sf e).x = s.x := by
   unfold adapt; split <;> rfl
 
@@ -153,13 +175,13 @@ theorem afterNewton_land (L : Lits K) (P : Params K) (s : State K) (o : PassOrac
 /-- **C03 (BDF), one pass.**  The current point never passes `xend`, and a pass that reports `Success` ends at `xend`
     (exact arithmetic), whatever the factorisation, the corrector iteration, the error norms and the callback answer. -/
 theorem pass_land (L : Lits K) (P : Params K) (s : State K) (o : PassOracle K)
-    (hd : P.direction * P.direction = 1) (hz : L.zero = 0) (hi : Inv P s) : LandOK P (pass L P s o) := by
+    (hd : P.direction * P.direction = 1) (hz : L.zero = 0) (hst : 1 ≤ L.stretch) (hi : Inv P s) : LandOK P (pass L P s o) := by
   unfold pass
   split
   · intro h; cases h
   · split
     · intro h; cases h
-    · have hl := limits_spec L P s hd hz hi
+    · have hl := limits_spec L P s hd hz hst hi
       cases hlim : limits L P s with
       | inr r => rw [hlim] at hl; exact hl
       | inl t =>
@@ -181,7 +203,7 @@ theorem pass_land (L : Lits K) (P : Params K) (s : State K) (o : PassOracle K)
               unfold Inv
               split <;> exact hi'
 
-theorem run_success_at_xend (L : Lits K) (P : Params K) (hd : P.direction * P.direction = 1) (hz : L.zero = 0) :
+theorem run_success_at_xend (L : Lits K) (P : Params K) (hd : P.direction * P.direction = 1) (hz : L.zero = 0) (hst : 1 ≤ L.stretch) :
     ∀ (os : List (PassOracle K)) (s : State K), Inv P s → ∀ r, run L P os s = some r → r.status = .success → r.x = P.xend := by
   intro os
   induction os with
@@ -189,7 +211,7 @@ theorem run_success_at_xend (L : Lits K) (P : Params K) (hd : P.direction * P.di
   | cons o os ih =>
     intro s hinv r h hs
     unfold run at h
-    have hp := pass_land L P s o hd hz hinv
+    have hp := pass_land L P s o hd hz hst hinv
     split at h
     · rename_i r' heq
       injection h with h
